@@ -11,7 +11,7 @@ import numpy as np
 
 import dsw
 import gen
-from core import Case, enc_call, guard, s2c, run_model, exn_answer, digits, VERIF
+from core import Case, enc_call, guard, s2c, run_model, exn_answer, digits, VERIF, Budget
 from props.c07 import formula
 
 ID = "C20"
@@ -71,6 +71,11 @@ def world(seed, k):
     import random
     rng = random.Random(seed)
     _, t, rows = gen.coding_graph(rng, k)
+    if rng.random() < 0.4:
+        # arc subsets: dead ends, vertices whose successors have no arcs, out-degree-1 chains
+        rows = gen.arc_subset(rng, k, keep=rng.choice([0.5, 0.7, 0.9]))
+        if not gen.live_vertices(rows):
+            rows = gen.complete(k)
     cfg = gen.local_cfg(rng, k, decidable_only=True)
     return {"k": k, "rows": rows, "bits": gen.message(rng, 40) or [1, 0, 1], "table": gen.random_table(rng, len(rows)),
             "mask": gen.random_mask(rng, k, 0.8), "cfg": cfg, "v0": rng.choice(gen.live_vertices(rows))}
@@ -94,7 +99,9 @@ def plan(seed, length, w):
              "valid_graph", "coding_graph", "scores", "capacity", "shuffles", "latters", "complete"]
     calls = []
     for _ in range(length):
-        nm = rng.choice(names + (["remove_arc"] if rng.random() < 0.08 else []))
+        nm = rng.choice(names + (["remove_arc"] if rng.random() < 0.25 else []))
+        if calls and calls[-1]["fn"] == "remove_arc" and rng.random() < 0.7:
+            nm = rng.choice(["scores", "leaves_map", "to_lmap"])       # look at the views right after an in-place update
         calls.append({"fn": nm, "vt": rng.choice([0, 0, 3, 5]), "tab": rng.random() < 0.5, "t": rng.choice([1, 2, 3]),
                       "d": rng.randint(0, 3), "seed": rng.randrange(1 << 20), "edit": rng.random() < 0.5,
                       "flags": rng.randrange(4), "n": rng.randrange(1 << 40), "w": rng.randint(0, 45)})
@@ -219,6 +226,8 @@ def run_history(p, check_verbose=True):
         try:
             ans, line = execute(objs, w, c, state)
             ans = [[0]] + ans
+        except Budget:
+            ans, line = [[2]], "skip"          # non-terminating encode on a graph that is not well formed (C04's domain)
         except Exception as e:  # noqa
             ans, line = exn_answer(e), "skip"
         after = snapshot(objs)
